@@ -118,11 +118,11 @@ def ensure_facts(tier='quick', want=None, verbose=True):
             raise AnalysisBroken('front end failed on analysed unit(s) - the tree does not compile:\n' + msg)
         if verbose:
             print('[facts] extracted %d unit(s) in %.1fs (source hash %s over %d files)' % (len(todo), time.time() - t0, key, nfiles))
-    # prune old cache dirs (keep 3 most recent)
+    # prune old cache dirs (keep the most recent ones; BSV_CACHE_KEEP raises the number for parallel trials on scratch worktrees)
     try:
         ds = sorted((os.path.getmtime(os.path.join(CACHE, x)), x) for x in os.listdir(CACHE)
                     if os.path.isdir(os.path.join(CACHE, x)))
-        for _, x in ds[:-3]:
+        for _, x in ds[:-int(os.environ.get('BSV_CACHE_KEEP', '3'))]:
             if x != key:
                 shutil.rmtree(os.path.join(CACHE, x), ignore_errors=True)
         os.utime(d, None)
